@@ -263,7 +263,8 @@ class C20(Check):
 
         n = len(A)
         lst = "single" if n == 1 else "list"
-        forms = [("list", A, B)] + ([("bare", A[0], B[0])] if n == 1 else [])
+        # a tuple of matrices is a sequence of matrices like a list (and a 2-tuple must not be mistaken for (weights, factors))
+        forms = [("list", A, B)] + ([("bare", A[0], B[0])] if n == 1 else []) + [("tuple", tuple(A), tuple(B))]
         for absv in (True, False):
             C = C_by_abs[absv]
             best, means = REF.all_matchings(C)
@@ -300,8 +301,9 @@ class C20(Check):
                     if not rec:
                         ctx.violation(f"congruence_coefficient/equivalent-permutation-not-recovering/{cls}",
                                       f"{label} form={form} absolute_value={absv}: returned permutation {p}; matrix2[:, perm] is not column-wise collinear with matrix1 (recovering permutation {equiv['expected']}, unique={equiv['unique']})")
-            if len(results) == 2 and (results[0][1] != results[1][1] or list(results[0][2]) != list(results[1][2])):
-                ctx.violation("congruence_coefficient/bare-vs-list-differ", f"{label}: {results}")
+            for other in results[1:]:
+                if results[0][0] == "list" and (results[0][1] != other[1] or list(results[0][2]) != list(other[2])):
+                    ctx.violation(f"congruence_coefficient/{other[0]}-vs-list-differ", f"{label}: {results}")
             if absv:
                 out_best, out_means = best, means
         return out_best, out_means
@@ -318,6 +320,12 @@ class C20(Check):
             except Exception as e:
                 ctx.violation(f"correlation_index/{method}/raises", f"{label}: {type(e).__name__}: {e}")
                 continue
+            try:  # the same factor sets handed over as tuples
+                sc_t = float(correlation_index(tuple(A), tuple(B), method=method))
+                if sc_t != sc:
+                    ctx.violation(f"correlation_index/{method}/tuple-vs-list-differ", f"{label}: list {sc!r} tuple {sc_t!r}")
+            except Exception as e:
+                ctx.violation(f"correlation_index/{method}/raises-on-tuples", f"{label}: {type(e).__name__}: {e}")
             if not (-TOL <= sc <= 1 + TOL):
                 ctx.violation(f"correlation_index/{method}/out-of-range", f"{label}: {sc!r} not in [0, 1]")
             if equiv_cls is not None:
